@@ -29,3 +29,17 @@ func init() {
 		return 0
 	}
 }
+
+func init() {
+	checks["NATIVE"] = func(tier string, seed int64) int {
+		c := newCtx("NATIVE", tier, seed, "other", nil)
+		defer c.Close()
+		b, _ := os.ReadFile(os.Getenv("SRCFILE"))
+		var gr nativeProgResp
+		req := map[string]interface{}{"Op": "prog", "Prog": map[string]interface{}{"Src": string(b), "Entry": os.Getenv("ENTRY"), "NRes": 1, "Mode": 0}}
+		out, err := c.Native.RunOnce(req, &gr, 60)
+		fmt.Println(out, err)
+		fmt.Printf("%+v\n", gr)
+		return 0
+	}
+}
